@@ -9,6 +9,7 @@ CACHE = os.path.join(VERIF, '.cache')
 WORK = os.path.join(CACHE, 'work')
 TARGET = os.path.join(CACHE, 'target')
 HBIN = os.path.join(TARGET, 'debug', 'minimq-verif-harness')
+COVBIN = os.environ.get('VERIF_COVERAGE_HBIN')   # bin/coverage only: an instrumented build of the same harness
 MBIN = os.path.join(OCAML, 'model_driver')
 ENV = dict(os.environ, CARGO_NET_OFFLINE='true')
 NPROC = min(16, os.cpu_count() or 4)
@@ -47,6 +48,10 @@ def build_ocaml():
 
 def build_harness():
     """rebuild the harness against /repo's current working tree (hooks on via .cargo/config.toml)"""
+    global HBIN
+    if COVBIN:
+        HBIN = COVBIN
+        return ''
     lock = os.path.join(HARNESS, 'Cargo.lock')
     if not os.path.exists(lock):
         sh('cp /repo/Cargo.lock %s' % lock)
@@ -167,6 +172,8 @@ def check_property_file(pid):
 
 
 def write_evidence(pid, tier, seed, coverage, assumptions, wall, violations):
+    if os.environ.get('VERIF_NO_EVIDENCE'):   # bin/coverage: a measurement run must not overwrite evidence
+        return
     os.makedirs(os.path.join(VERIF, 'evidence'), exist_ok=True)
     ev = {'property_id': pid, 'tier': tier, 'seed': seed, 'level': 'proof', 'coverage': coverage,
           'assumptions': assumptions, 'wall_s': round(wall, 2), 'violations': violations}
